@@ -12,6 +12,7 @@ import Hy.Drv.Acl
 import Hy.Drv.Punch
 import Hy.Drv.Stats
 import Hy.Drv.Reconnect
+import Hy.Drv.QuicInitial
 
 open Hy.Drv
 
@@ -45,4 +46,5 @@ def main (args : List String) : IO UInt32 := do
   | ["punchconn"] => loopState stdin stdout Punch.stepConn Punch.initConn; return 0
   | ["stats"] => loopState stdin stdout Stats.step Stats.init; return 0
   | ["reconnect"] => loopPure stdin stdout Reconnect.step; return 0
+  | ["sniff"] => loopPure stdin stdout QuicInitial.step; return 0
   | _ => IO.eprintln "usage: hydrv <component>"; return 2
